@@ -158,10 +158,11 @@ TABLE["C04"] = {
 }
 
 TABLE["C05"] = {
-    "pipelines": [{"name": "panics", "cmd": ["panics"], "n_quick": 400, "n_thorough": 20000, "timeout": 900, "timeout_thorough": 3400}],
+    "pipelines": [{"name": "panics", "cmd": ["panics"], "n_quick": 400, "n_thorough": 20000, "timeout": 900, "timeout_thorough": 3400},
+                  dict(HIST_PIPE, own_keys_only=["c05."])],
     "fail_keys": ["c05."],
     "trusted_base": MACHINE_TB + ["Rust unwinding semantics: destructors of the remaining Vec elements and struct fields still run after one of them panics; a panic while already unwinding aborts; std::thread::panicking()", "panic hook counts panics; resume_unwind does not invoke the hook"],
-    "rule": "PRNG scripts of 0-7 operations per lifetime over three real Rust targets: raw installs, fake!(times: N) installs (N in 0..3), matching / non-matching calls, signature refusal through will_execute_raw and through will_execute (verifier already stored), null pointer, allocation failure (scripted mmap failing over the whole window), user panic; the first panic ends the body wherever it falls; 1-4 consecutive lifetimes per forked child; after each lifetime bytes and behaviour of all targets, the shim's owned mappings, and creation + use of a new injector from a fresh thread within a deadline. Distinct by script; non-trivial when a panic occurs in the body or at scope exit",
+    "rule": "PRNG scripts of 0-7 operations per lifetime over three real Rust targets: raw installs, fake!(times: N) installs (N in 0..3), matching / non-matching calls, signature refusal through will_execute_raw and through will_execute (verifier already stored), null pointer, allocation failure (scripted mmap failing over the whole window), user panic; the first panic ends the body wherever it falls; 1-4 consecutive lifetimes per forked child; after each lifetime bytes and behaviour of all targets, the shim's owned mappings, and creation + use of a new injector from a fresh thread within a deadline; plus (borrowed histories, key c05.) refused installations in the histories leave every target and the guard list as they were -- incl. page-spanning entries installed while the OS serves exactly one more mprotect. Distinct by script; non-trivial when a panic occurs in the body or at scope exit",
     "assumptions": ["freshness of trampoline mappings", "panics in safe-ABI fakes unwind (extern \"C\" fakes abort by language rule and are outside the claim)"],
     "level_text": "Theorem C05_safe: for every body script (any order of installs, counted/rejected/plain calls, refusals, user panic; the first panic wherever it occurs, or none) the two-phase release of the injector (the Drop::drop body as read from the source, a panic inside it skipping the rest; then the fields in declaration order, a non-empty guard vector dropping oldest first) never aborts, raises at most one panic in total, frees the guard, and restores memory, mappings and guards (through C02_restores); C05_refused: a refused installation changes nothing; C05_exit_once: scope-exit verification panics exactly once iff some expectation is unsatisfied. Correspondence: real panics in forked children.",
     "level_note": "Trusted: Lean kernel, translator facts (verifier tests panicking(), gates precede patching, release order), unwinding semantics.",
